@@ -281,6 +281,8 @@ class Mirror:
         if k == "tuple":
             dd = self.load(x)
             vs = self.itervalues(dd)
+            if len(vs) < len(d[2]):
+                raise ModelRaise("EValue")
             return tuple(self.unm(t, v) for t, v in zip(d[2], vs))
         if k == "union":
             ts = list(d[2])
@@ -300,6 +302,8 @@ class Mirror:
                 if type(a) is str and a in fields:
                     kw[a] = self.unm(fields[a], b)
             cls = getattr(self.reg.mod, cname(n))
+            if df[1] == "typeddict" and df[2] != "total=False" and any(f not in kw for f in fields):
+                raise ModelRaise("EType")
             return self._construct(lambda: cls(**kw))
         if k in ("newtype", "alias"):
             return self.unm(d[2], x)
